@@ -735,11 +735,3 @@ func depthKind(d int) string {
 	}
 	return "hc"
 }
-
-func init() {
-	register("C14B", &PropDef{ // block half only (used while the frame half is developed)
-		Setup: compSetup,
-		Total: func(c *Ctx) int64 { return planFor(c, "C14").total() },
-		Run:   c14BlockCase,
-	})
-}
